@@ -33,6 +33,14 @@ ROWS = {
    technique='exhaustive enumeration of the 192-row option/signature/corruption table + property-based generated identities per row; reference decision predicate (iff oracle)',
    text='Every combination of the three SP signature options, plain/encrypted assertion, what was signed and which signature was corrupted (two ways) is built by the harness and delivered to the SP; acceptance must equal the documented predicate in both directions.',
    note=TOOL_NOTE + '; documents built and signed by the harness templates, frozen clock.'),
+ 'C06': dict(level='exploration', design='3/C06',
+   technique='exhaustive enumeration of the status x sub-status x message x assertion x signing table and the Version table for responses and requests; class-name oracle independent of the library table',
+   text='Every top-level/second-level status combination (incl. absent Status, unknown URIs) and every Version spelling is delivered as an otherwise valid signed document; non-Success or non-2.0 must never be accepted, standard sub-codes must raise the documented Status<Code> class, Success/2.0 must be accepted.',
+   note=TOOL_NOTE + '; frozen clock.'),
+ 'C04': dict(level='exploration', design='3/C04',
+   technique='enumerated clock grid around every validity bound x allowance x presence subsets x timestamp spellings under a frozen clock + property-based multi-bound combinations; must-reject/must-accept/expiry-equality oracle from the statement',
+   text='Bounds are placed -3..+3 s and far around the reject edge and the accept edge for each allowance; acceptance outside a window, rejection of a comfortably valid profile-conformant response, ordering violations, the IssueInstant window and the session expiry handed to the application are judged; instants within 1 s of an edge are run but not judged.',
+   note=TOOL_NOTE + '; clock frozen by module-global rebinding after import.'),
 }
 NOT_YET = {}
 def main():
